@@ -404,6 +404,30 @@ def acc_family(ctx, rule, fv, who, seq_term, norm_term, n_term=None, k_term=None
     return bv
 
 
+def _drop_total_positive(gs, tv):
+    """Guards of the normalisation without the redundant conjuncts `total > 0` / `total != 0` / `total >= 1`: the
+    accumulation rules (one `bucket[..] += 1.0` and one `total += 1.0` per item, no item skipped) make the bucket all
+    zero exactly when the total is zero, and 0.0 / max(1.0, 0.0) is 0.0 — skipping the division then changes no bit."""
+    redundant = (mk_bin("<", L(0.0), tv), mk_bin("!=", tv, L(0.0)), mk_bin("<=", L(1.0), tv))
+    out = []
+    for g, pol in gs:
+        if not pol:
+            out.append((g, pol))
+            continue
+        todo, keep = [g], []
+        while todo:
+            t = todo.pop()
+            if t[0] == "bin" and t[1] == "&&":
+                todo += [t[2], t[3]]
+            elif t not in redundant:
+                keep.append(t)
+        if len(keep) == 1:
+            out.append((keep[0], True))
+        elif keep:
+            out.append((g, True))
+    return out
+
+
 def normaliser(ctx, rule, fv, who, norm_term, tv, bv):
     """every `/=` in fv is guarded by norm_term and divides by max(1.0, total)"""
     divs = [x for x in fv.nodes if x.get("k") == "assignop" and x["op"] == "/="]
@@ -450,7 +474,7 @@ def normaliser(ctx, rule, fv, who, norm_term, tv, bv):
     ctx.check(rule, "%s:divisor" % who, ok_div, "divisor = max(1.0, total)",
               "divisor is `%s`; a record without valid windows (total = 0) must divide by max(1.0, total)"
               % show(rt), line_of(d))
-    gs = [(fv.term(c), pol) for c, pol in fv.guards(d)]
+    gs = _drop_total_positive([(fv.term(c), pol) for c, pol in fv.guards(d)], tv)
     ctx.check(rule, "%s:norm_guard" % who, (norm_term, True) in gs and len(gs) == 1,
               "normalisation only under %s" % show(norm_term),
               "normalisation is guarded by %s, expected exactly `%s`"
@@ -1227,6 +1251,51 @@ def find_rows(fv, root=None, ctx=None):
 
 
 
+def _zero_trip_exit(fv, ret):
+    """`if n == 0 { return V; }` as a top-level statement of a function whose only loop is `for _ in 0..n` and whose
+    tail is an accumulator initialised to the literal V and assigned only inside that loop: with n == 0 the loop
+    runs zero times and the tail yields V as well — the exit is redundant, not another result."""
+    top = fv.body.get("stmts", [])
+    iff = None
+    for st in top:
+        e = st.get("e") if st.get("k") == "semi" else st
+        if isinstance(e, dict) and e.get("k") == "if" and e.get("else") is None and any(x is ret for x in walk(e["then"])):
+            iff = e
+    if iff is None or ret.get("e") is None:
+        return False
+    inner = [x for x in walk(iff["then"]) if x.get("k") in ("call", "mcall", "assign", "assignop", "if", "match", "for", "while", "loop")]
+    if inner:
+        return False
+    cond, val = fv.term(iff["cond"]), fv.term(ret["e"])
+    if val[0] != "lit" or cond[0] != "bin" or cond[1] != "==" or L(0) not in cond[2:]:
+        return False
+    n_t = cond[3] if cond[2] == L(0) else cond[2]
+    loops = [l for l in fv.nodes if l.get("k") in ("for", "while", "loop")]
+    if len(loops) != 1 or loops[0].get("k") != "for":
+        return False
+    it = fv.term(loops[0]["iter"])
+    if it[0] != "struct" or not it[1].endswith("ops::Range"):
+        return False
+    d = dict(it[2])
+    end = d.get("end", ("none",))
+    while end[0] == "cast" and isinstance(end[-1], tuple):
+        end = end[-1]
+    if d.get("start") != L(0) or end != n_t:
+        return False
+    tail = fv.body.get("expr")
+    if tail is None or tail.get("k") != "local":
+        return False
+    b = fv.binds.get(tail.get("id"))
+    if not b or b["val"][0] != "node" or fv.term(b["val"][1]) != val:
+        return False
+    body_nodes = {id(x) for x in walk(loops[0]["body"])}
+    for a in fv.nodes:
+        if a.get("k") in ("assign", "assignop") and a["l"].get("k") == "local" and a["l"].get("id") == tail.get("id") \
+                and id(a) not in body_nodes:
+            return False
+    return True
+
+
 def rule_pure_function(ctx, rule, fv, who):
     """The function's result is a function of its arguments alone: it reads no static / global state (a cache keyed
     on part of the arguments answers a later call with different arguments from the earlier one) and has no early
@@ -1246,6 +1315,7 @@ def rule_pure_function(ctx, rule, fv, who):
               "arguments than the result depends on)" % (who, norm_path(statics[0].get("path", "")) if statics else ""),
               line_of(statics[0]) if statics else None)
     rets = [n for n in fv.nodes if n.get("k") == "ret" and fv.enclosing(n, ("closure",)) is None]
+    rets = [n for n in rets if not _zero_trip_exit(fv, n)]
     ctx.check(rule, "%s:single_exit" % who, not rets, "every path ends in the tail expression",
               "`%s` has an early `return`: that exit hands out a value the decode/table rules do not judge" % who,
               line_of(rets[0]) if rets else None)
